@@ -40,7 +40,7 @@ PatsT == PatsQ \o <<
     <<<<40, 98, 41, 42>>, <<103>>>> >>                     \* /(b)*/g
 Pats == IF Thorough THEN PatsT ELSE PatsQ
 
-SubjQ == <<<<>>, <<97>>, <<97, 97>>, <<98, 97>>, <<97, 98, 97>>, <<97, 10, 97>>>>
+SubjQ == <<<<>>, <<97>>, <<97, 97>>, <<98, 97>>, <<97, 98, 97>>, <<97, 10, 97>>, <<233, 97>>>>    \* "", a, aa, ba, aba, a LF a, e-acute a
 SubjT == SubjQ \o <<<<98>>, <<66, 97, 98>>, <<97, 97, 97>>, <<10, 97>>>>
 Subj == IF Thorough THEN SubjT ELSE SubjQ
 
